@@ -5,23 +5,33 @@ P = dict(
     level='exploration',
     technique='runtime monitoring: generated test programs executed by the real framework and by a sequential reference interpreter '
               '(trace, printed failures, summary, counters, runner return value compared), jump-buffer depth / current-test hooks after every test, '
+              'check counter of the result in use read before every statement (names the statement class that was not counted once when the check count of a repetition is wrong), '
               'ASan/UBSan builds with and without C++ exceptions',
     rule='cases: generated programs (0..40 tests, thorough up to 300; setup/body/teardown scripts of marks, passing checks, failing C++-style and C-style checks, '
          'std/foreign exceptions, prints, TEST_EXIT; plugin-reported errors; IGNOREd tests; filters; 1..4 repetitions with repetition-dependent failures), '
          'always including blocks of 12..16 (thorough 25..40) consecutive failing tests; run through a private registry, through CommandLineTestRunner::runAllTestsMain '
          'and as a forked RUN_ALL_TESTS process, plain and nested inside an outer test; a quarter of the programs in the crash-on-fail configuration (UtestShell::setCrashOnFail() before the run, or -f on the command line) '
          'with a crash method that returns; plus the complete table of (setup, body, teardown) outcome triples x 13 consecutive tests x {default terminators, crash-on-fail by API, crash-on-fail by -f}. '
+         'Check statements are drawn from a catalogue of 124 check forms covering every check family of UtestShell and of the C interface (true/fail/string/string-n/no-case/contains/longs/unsigned/long long/bytes/pointers/function pointers/doubles/binary/bits/equals/CHECK_THROWS) '
+         'with ordinary and with boundary arguments that take the shortcut paths of the family (binary or string-n compare of length 0, both or one operand NULL, prefixes, empty bit mask, zero tolerance, infinities, extreme values), on the passing and on the failing path; '
+         'the catalogue is also enumerated completely (every form x phase x registry/runner, failing in one repetition and passing in the other, alone, three times in a row, and in front of a failing check). '
          'Non-trivial = program in which at least one phase fails a check or throws; distinct by the sequence of per-test (setup, body, teardown) outcome triples over all repetitions',
     floor=dict(quick=1500, thorough=8000),
     counter_floor=dict(
         quick=dict(programs_with_failing_run_longer_than_jump_buffer_stack=1500, depth_checks_after_test=50000, process_runs=100, failed_flag_checks=50000, summaries_parsed=5000, runner_returned_zero=50, repetitions_ran_nothing=100,
-                   programs_crash_on_fail_with_a_failing_check=1000, programs_crash_on_fail_with_a_failing_check_in_setup=500, programs_crash_on_fail_set_by_flag_f=300, programs_crash_on_fail_set_by_api=500, crash_hook_calls=20000),
+                   programs_crash_on_fail_with_a_failing_check=1000, programs_crash_on_fail_with_a_failing_check_in_setup=500, programs_crash_on_fail_set_by_flag_f=300, programs_crash_on_fail_set_by_api=500, crash_hook_calls=20000,
+                   catalogue_forms_enumerated=1400, statement_check_count_deltas_compared=1500000, zero_length_binary_compares_executed=15000, programs_with_a_zero_length_binary_compare_and_a_failing_phase=3000,
+                   checks_with_null_operands_executed=60000, boundary_argument_checks_executed=120000, boundary_argument_checks_failing=30000, checks_binary_length_0_passing=6000, checks_throws_ordinary_passing=2500),
         thorough=dict(programs_with_failing_run_longer_than_jump_buffer_stack=8000, programs_with_failing_run_of_25_or_more=5000, depth_checks_after_test=1000000, process_runs=400, runner_returned_zero=300, repetitions_ran_nothing=500,
-                      programs_crash_on_fail_with_a_failing_check=5000, programs_crash_on_fail_set_by_flag_f=2000, crash_hook_calls=100000),
+                      programs_crash_on_fail_with_a_failing_check=5000, programs_crash_on_fail_set_by_flag_f=2000, crash_hook_calls=100000,
+                      catalogue_forms_enumerated=1400, statement_check_count_deltas_compared=10000000, zero_length_binary_compares_executed=100000, programs_with_a_zero_length_binary_compare_and_a_failing_phase=20000,
+                      checks_with_null_operands_executed=400000, boundary_argument_checks_executed=800000, boundary_argument_checks_failing=200000, checks_binary_length_0_passing=40000, checks_throws_ordinary_passing=15000),
     ),
     assumptions=['Gcc platform (setjmp/longjmp jump-buffer stack of UtestPlatform.cpp)', 'rethrowing of unexpected exceptions is switched off (-e) whenever a program throws',
                  'crash-on-fail (-f / UtestShell::setCrashOnFail()) is exercised only with a crash method that returns (UtestShell::setCrashMethod(): trap-and-continue hook); with the default crash method the process aborts at the first failing check by design. When the hook is called is not judged (counted as evidence only)',
                  'separate-process (-p) and shuffle (-s) runs are outside this check',
+                 '"true number of checks" = one per executed check macro whatever its arguments and verdict; CHECK_COMPARE is left out of the catalogue (its passing path does not call into the framework, so the tree counts 0 for it: recorded as an observation, not judged)',
+                 'failing checks are written through the *_LOCATION macros (synthetic file:line), passing ones also through the plain macros; what a single statement adds to the check counter is only used to name the culprit of a wrong repetition total, never judged by itself',
                  'the exit status of the forked process is the returned value modulo 256; only the returned value is judged'],
     stall_s=300,
 )
